@@ -128,6 +128,38 @@ def run(tier, seed, out, drv, facts):
             prog = [{"op": "ctx", "body": body, "exit": "ret"}]
             got, want = progcheck.compare_program(out, drv, facts, prog, "rollback-leaf", rng=rng, as_violation=as_violation, shrink=False)
             out.case(("rollback-leaf", lname, json.dumps(t), json.dumps(x)), True, sample={"leaf_type": lname, "T": ta, "x": xa, "verdicts": progcheck.verdicts(got)})
+    # leaf types whose test FAILS at inner nodes WHILE THE TREE IS BEING FLATTENED and rolls the context back there (a
+    # structure-less PyTree as the first member of a union: the root is not a `PyTree[int]` when a `str` sits in it):
+    # the name is bound once flattening is over, in the context as it is THEN
+    NP = {"t": "union", "ts": [{"t": "pytree", "l": INT, "s": None}, gen_prog.STR]}
+    NP2 = {"t": "union", "ts": [{"t": "pytree", "l": {"t": "union", "ts": [gen_prog.arr_type("n"), gen_prog.arr_type("n m")]}, "s": None}, gen_prog.STR]}
+    sv = gen_prog.sval
+
+    def mixed(tree, k=[0]):
+        if tree["t"] == "int":
+            k[0] += 1
+            return sv("x") if k[0] % 2 else ival(k[0])
+        if "xs" in tree:
+            return dict(tree, xs=[mixed(c, k) for c in tree["xs"]])
+        if "vals" in tree:
+            return dict(tree, vals=[mixed(c, k) for c in tree["vals"]])
+        return tree
+
+    for lname, lt in (("Union[PyTree[int], str]", NP), ("Union[PyTree[Union[arr n, arr n m]], str]", NP2)):
+        for t, x in itertools.product([t_ for t_ in trees[:10] if t_["t"] != "int"], repeat=2):
+            tm, xm = mixed(t), mixed(x)
+            if lt is NP2:
+                tm, xm = with_arrays(t), with_arrays(x)
+                # put a string next to the arrays so that the inner PyTree fails at the root
+                tm = {"t": "tuple", "xs": [tm, sv("x")]}
+                xm = {"t": "tuple", "xs": [xm, sv("y")]}
+            body = [{"op": "check", "l": {"t": "pytree", "l": lt, "s": "T"}, "x": tm}, {"op": "print"}]
+            for form in ("T", "T ...", "... T", "T T"):
+                body.append({"op": "check", "l": {"t": "pytree", "l": lt, "s": form}, "x": xm})
+            body.append({"op": "print"})
+            prog = [{"op": "ctx", "body": body, "exit": "ret"}]
+            got, want = progcheck.compare_program(out, drv, facts, prog, "rollback-while-flattening", rng=rng, as_violation=as_violation, shrink=False)
+            out.case(("rollback-while-flattening", lname, json.dumps(t), json.dumps(x)), True, sample={"leaf_type": lname, "T": tm, "x": xm, "verdicts": progcheck.verdicts(got)})
     # the same composite written with other separators the build-time validation lets through (runs of blanks, tabs,
     # newlines, blanks around the whole string): one meaning, whatever the spelling
     spellings = ["S  T", "S\tT", "T\t...", "...  T", "S \n T ...", " T ", "T\n", "...\tS\tT", "T   S", "S T  ..."]
